@@ -77,6 +77,8 @@ _g("G-MLR", [("S", "a A e"), ("S", "b B e"), ("A", "B x"), ("B", "A z"), ("A", "
    V=("a", "b", "c", "d", "e", "x", "y", "z"), note="mutually left-recursive A, B with further left corners, entered from two different rules of S")
 _g("G-DIA", [("S", "A"), ("S", "B"), ("B", "A"), ("A", "a"), ("B", "b"), ("A", "a A")], note="unary diamond: A is reached from S by unary paths of different length")
 _g("G-DIA2", [("S", "X b"), ("X", "A"), ("X", "B"), ("B", "A"), ("A", "a"), ("B", "a a"), ("S", "X")], note="unary diamond below another symbol: X -> A | B, B -> A")
+_g("G-TOK", [("S", ("a", "b", "S")), ("S", ("ab", "S")), ("S", ()), ("S", ("a",)), ("S", ("b", "a"))], V=("a", "b", "ab"),
+   note="tokens a, b and ab: different token sequences spell the same text")
 _g("G-MB", [("S", "é S"), ("S", "ab"), ("S", "€ T"), ("T", "𝄞"), ("T", "x"), ("S", "é")],
    V=("é", "ab", "€", "𝄞", "x"), note="multi-character and multi-byte terminals")
 
